@@ -117,6 +117,15 @@ check("C10", "runtime monitoring: class invariant on Parameter (icontract), exce
       "Trusted: shadow model with parameters held by reference; icontract 2.7.3 (falls back to equivalent hand-written "
       "wrappers if it cannot be imported).", "DESIGN.md 4 C10")
 
+check("C13", "runtime monitoring: post-condition on every qubit-gate constructor (dual-rail amplitude matrix from U_full + heralds "
+      "with own permanent vs textbook matrix, squared scalar, leakage of heralded gates); discrete part enumerated "
+      "completely, angles sampled",
+      "Held on all 21 gate classes, all target options, all 360 SWAP mode tuples within 6 modes, 64 grid angles and "
+      "thousands of random angles per rotation gate: each is one scalar times the named matrix with |c|^2 = 1, 1/9, 1/16, "
+      "1/72 as stated; heralded gates have no accepted output outside the qubit subspace.",
+      "Trusted: textbook matrices in /verif/lwverif/qubitref.py, own permanent; exhaustive only over the discrete part.",
+      "DESIGN.md 4 C13")
+
 NOT_APPLICABLE = []
 _EXPLICIT_NA = {}
 for line in open("/verif/properties.jsonl"):
